@@ -84,7 +84,7 @@ EXC = [AssertionError, ValueError, TypeError, KeyError, IndexError, StopIteratio
 WHERE = (CASE or 0) % 3   # 0: graph construction, 1: a structuring pass, 2: the writer
 
 
-def h_funnel(which: int) -> bool:
+def h_funnel(which: int, coro: bool = False) -> bool:
     """
     pre: 0 <= which < 8
     post: _
@@ -123,9 +123,14 @@ def h_funnel(which: int) -> bool:
     D.SsbGraphMinimizer, D.RoutineWriteHandler = G, W  # type: ignore
     try:
         ops = [[SsbOperation(0, SsbOpCode(-1, "foo"), [1]), SsbOperation(1, SsbOpCode(-1, "End"), [])]]
-        d = D.ExplorerScriptSsbDecompiler([SsbRoutineInfo(SsbRoutineType.GENERIC, 0)], ops, [], "$P",
+        from explorerscript.ssb_converting.ssb_data_types import SsbCoroutine
+
+        kind = SsbRoutineType.COROUTINE if coro else SsbRoutineType.GENERIC
+        d = D.ExplorerScriptSsbDecompiler([SsbRoutineInfo(kind, 0)], ops, [SsbCoroutine(0, "CORO_X")] if coro else [], "$P",
                                           DungeonModeConstants("a", "b", "c", "d"))
         text, sm = d.convert()
+        if coro and "coro CORO_X" not in text:
+            return verdict(False)
     finally:
         D.SsbGraphMinimizer, D.RoutineWriteHandler = og, ow  # type: ignore
     return verdict(text.startswith("//?: is-ssb-script: true\n") and sm is not None and "foo(1);" in text)
@@ -144,10 +149,10 @@ OBLIGATIONS = [
     {"id": "C06.S1", "module": __name__, "func": "h_fallback_exact2",
      "what": "fallback exactness: prefix + SsbScript of a symbolic routine set, compiled by the real ExplorerScript "
              "compiler (marker dispatch), reproduces opcodes, parameters and jump targets",
-     "cases": {"quick": [c for c in hC07.cases("quick") if c % 4 in (0, 1)], "thorough": hC07.cases("thorough")},
+     "cases": {"quick": [c for c in hC07.cases("quick") if c % 5 in (0, 1, 4)], "thorough": hC07.cases("thorough")},
      "timeout": {"quick": 200, "thorough": 600},
-     "bounds": "2 ops, kinds from {plain, Jump, Branch, Call, CaseValue, unknown} (case split), offsets with symbolic gaps, "
-               "symbolic targets; quick: layouts one routine / split",
+     "bounds": "2 ops, kinds from {plain, Jump, Branch, Call, CaseValue, unknown, parameterless} (case split), offsets with "
+               "symbolic gaps, symbolic targets; quick: layouts one routine / split / two named coroutines",
      "encodes": hC07._ENC + ["explorerscript.ssb_converting.ssb_compiler.ExplorerScriptSsbCompiler.compile",
                              "explorerscript.ssb_converting.compiler.meta_attributes.parse_exps_meta_attributes"],
      "stubs": ["compile stage (ANTLR) untraced on concrete text"]},
@@ -166,7 +171,7 @@ OBLIGATIONS = [
              "writer), convert() returns the marked SsbScript fallback and a source map",
      "cases": [0, 1, 2],
      "timeout": {"quick": 200, "thorough": 600},
-     "bounds": "8 exception types (symbolic choice) x 3 raising sites (case split)",
+     "bounds": "8 exception types (symbolic choice) x generic / named-coroutine routine (symbolic) x 3 raising sites (case split)",
      "encodes": ["explorerscript.ssb_converting.ssb_decompiler.ExplorerScriptSsbDecompiler.convert"],
      "stubs": ["SsbGraphMinimizer / RoutineWriteHandler replaced by stubs that raise the chosen exception"]},
 ]
